@@ -9,6 +9,8 @@
 //!   der_val   src, tag, bits      -> y | err         AnyRef::new(tag, content octets) -> Uint::try_from
 //!   rlp_enc   x, bits             -> bytes           rlp::encode, RlpStream::append, Encodable::rlp_bytes
 //!   rlp_dec   src, bits           -> y | err         rlp::decode, Rlp::as_val, Decodable::decode
+//!   rlp_list  xs, bits            -> bytes           RlpStream::new_list / begin_unbounded_list / append_list, rlp::encode_list
+//!   rlp_list_dec src, cnt, bits   -> ys | err        rlp::decode_list, Rlp::as_list, Rlp::at(i).as_val on a canonical list
 //! Decoders run under catch_unwind (a panic is an outcome, and never an acceptable one here).
 use der::asn1::{AnyRef, UintRef};
 use der::{Decode, Encode, EncodeValue, Reader, SliceReader, Tag};
@@ -368,6 +370,37 @@ where
         cx.call(ev("RlpStream.append"), || { let mut s = rlp::RlpStream::new(); s.append(&x); O::ok().b("bytes", &s.out()) });
         cx.call(ev("Encodable.rlp_bytes"), || O::ok().b("bytes", &rlp::Encodable::rlp_bytes(&x)));
     }
+    // lists of integers: every item is the canonical item, the list header counts them once
+    let pool = values(&mut cx.rng, N, nvals.min(12));
+    for cnt in [0usize, 1, 2, 3, 5, 9] {
+        let xs: Vec<Vec<u64>> = (0..cnt).map(|j| pool[(j * 7 + cnt) % pool.len()].clone()).collect();
+        let us: Vec<Uint<N>> = xs.iter().map(|v| mk::<N>(v)).collect();
+        let ev = |form: &str| Ev::new("rlp_list", form).nl("xs", &xs).i("bits", bits);
+        cx.call(ev("RlpStream.new_list+append"), || { let mut s = rlp::RlpStream::new_list(us.len()); for u in &us { s.append(u); } O::ok().b("bytes", &s.out()) });
+        cx.call(ev("RlpStream.begin_unbounded_list"), || { let mut s = rlp::RlpStream::new(); s.begin_unbounded_list(); for u in &us { s.append(u); } s.finalize_unbounded_list(); O::ok().b("bytes", &s.out()) });
+        cx.call(ev("RlpStream.append_list"), || { let mut s = rlp::RlpStream::new(); s.append_list(&us); O::ok().b("bytes", &s.out()) });
+        cx.call(ev("rlp::encode_list"), || O::ok().b("bytes", &rlp::encode_list(&us)));
+    }
+}
+
+/// lists decode item by item (widths with `Decodable` only)
+fn rlp_list_dec_width<const N: usize>(cx: &mut Cx, nvals: usize)
+where
+    Uint<N>: Encoding,
+    <Uint<N> as Encoding>::Repr: Default,
+{
+    let bits = 64 * N as i64;
+    let pool = values(&mut cx.rng, N, nvals.min(12));
+    for cnt in [0usize, 1, 2, 3, 5, 9] {
+        let xs: Vec<Vec<u64>> = (0..cnt).map(|j| pool[(j * 5 + cnt) % pool.len()].clone()).collect();
+        let us: Vec<Uint<N>> = xs.iter().map(|v| mk::<N>(v)).collect();
+        let src = rlp::encode_list(&us).to_vec();
+        let ev = |form: &str| Ev::new("rlp_list_dec", form).b("src", &src).i("bits", bits).i("cnt", cnt as i64);
+        let out = |r: Result<Vec<Uint<N>>, rlp::DecoderError>| match r { Ok(ys) => O::ok().nl("ys", &ys.iter().map(|y| raw(y)).collect::<Vec<_>>()), Err(e) => rerr(e) };
+        cx.call(ev("rlp::decode_list"), || out(Ok(rlp::decode_list::<Uint<N>>(&src))));
+        cx.call(ev("Rlp.as_list"), || out(rlp::Rlp::new(&src).as_list::<Uint<N>>()));
+        cx.call(ev("Rlp.at.as_val"), || { let r = rlp::Rlp::new(&src); out((0..cnt).map(|j| r.at(j).and_then(|it| it.as_val::<Uint<N>>())).collect()) });
+    }
 }
 
 /// `rlp::Decodable` needs `Repr: Default`, which arrays have up to 32 octets only: U64, U128, U192, U256
@@ -434,6 +467,10 @@ fn main() {
         rlp_enc_width::<64>(&mut cx, 8 * s);
         rlp_enc_width::<96>(&mut cx, 6 * s);
         rlp_enc_width::<128>(&mut cx, 6 * s);
+        rlp_list_dec_width::<1>(&mut cx, 12);
+        rlp_list_dec_width::<2>(&mut cx, 12);
+        rlp_list_dec_width::<3>(&mut cx, 12);
+        rlp_list_dec_width::<4>(&mut cx, 12);
         rlp_dec_width::<1>(&mut cx, 8 * s);
         rlp_dec_width::<2>(&mut cx, 8 * s);
         rlp_dec_width::<3>(&mut cx, 6 * s);
